@@ -8,7 +8,7 @@ from harness.props.vbsutil import read_all, KeepOpen
 PROP = 'C18'
 RULE = ("synthetic parameter extract files: a table index with random sub-id assignments (incl. re-assigned sub-ids and "
         "non-index records before the trailer), the IP0000T1 trailer, then 0..many rows of several tables interleaved; "
-        "every configured table and generated layouts; compressed and expanded representation of the same logical rows; "
+        "every configured table and generated layouts; runs of 1500 / 2600 consecutive rows of other tables; compressed and expanded representation of the same logical rows; "
         "latin_1 / cp500; VBS / 1014; plus files without trailer and unconfigured tables; rows compared with an "
         "independent slicing of the generated logical rows, CSV of mci_ipm_param_to_csv compared cell by cell. Non-trivial "
         "= at least two tables present in the data rows; distinct = distinct (file, table, representation)")
@@ -59,8 +59,13 @@ def build(case):
     if not case.get('notrailer'):
         recs.append('TRAILER RECORD IP0000T1  ' + f'{len(tables):08d}')
     expected = []
-    for _ in range(case['nrows']):
+    run_at = case['nrows'] // 2 if case.get('run') else None
+    for i in range(case['nrows'] + case.get('run', 0)):
         t = rng.choice(tables + ['IP0999T9'])
+        if run_at is not None and run_at <= i < run_at + case['run']:
+            # a long RUN of consecutive rows of other tables (real extracts hold thousands per table, one table after
+            # the other): skipping them must not cost stack depth
+            t = rng.choice([x for x in tables + ['IP0999T9'] if x != case['table']])
         width = 260
         body = [rng.choice(FILL) for _ in range(width)]
         eff = ''.join(rng.choice('0123456789') for _ in range(10))
@@ -72,7 +77,7 @@ def build(case):
         else:
             row = eff[:7] + code + sub + ''.join(body[19:])
             effv = eff[:7]
-        if rng.random() < 0.1:
+        if rng.random() < 0.1 or (run_at is not None and run_at <= i < run_at + case['run']):
             row = row[:rng.randrange(11, 40)]        # short row: slices come back short, never an error
         recs.append(row)
         resolved = row[11:19] if case['expanded'] else index.get(row[8:11])
@@ -166,6 +171,8 @@ def explore(run, tier):
             t = rng.choice(tables)
             for expanded in (0, 1):
                 cases.append(dict(base, expanded=expanded, table=t, layout=lay))
+        if i % 100 == 7:
+            cases.append(dict(base, expanded=i % 2, run=[1500, 2600][(i // 100) % 2]))
         if i % 10 == 0:
             cases.append(dict(base, expanded=i % 2, notrailer=True))
             cases.append(dict(base, expanded=i % 2, table='IP0072T1'))
